@@ -53,6 +53,11 @@ def r3(ctx, rid):
                     if y.kind == 'arg':
                         ps.add(y.data)
             return ps
+        st = (c.self_ty or {}).get('s', '')
+        if not st.replace('&', '').strip().startswith('std::option::Option<'):
+            ctx.bad(rid, 'notfound-ranks-below-every-record|%s' % f.id, c.where(), 'the merge compares plain timestamps (%s): NotFound then needs a concrete timestamp as its rank and ties with a stored record of that timestamp - under the strict comparison such a record can never replace the NotFound accumulator (a key whose newest record has that timestamp reads NotFound, a duplicate of it is stored again)' % st)
+        else:
+            ctx.ok(rid, 'notfound-ranks-below-every-record|%s' % f.id, c.where(), 'merge key is Option<timestamp>: None (NotFound) < Some(any)', nontrivial=False)
         a, b = side(c.args[0]), side(c.args[1])
         strict_other_greater = (c.name == 'gt' and a == {2} and b == {1}) or (c.name == 'lt' and a == {1} and b == {2})
         if not strict_other_greater:
